@@ -117,7 +117,7 @@ def run(ctx):
     for m, (op_variant, ref) in REQUESTS.items():
         B = hirq.Body(f, f.body(LDAP + m))
         ctx.analysed['bodies'].add(B.path)
-        outs = absx.Interp(f, B, unroll=1, inline=inline_policy).run(root=async_root(B))
+        outs = absx.Interp(f, B, unroll=1, inline=inline_policy, combinators=True).run(root=async_root(B))
         issued = 0
         seen_opt = set()
         for o in outs:
@@ -152,7 +152,7 @@ def run(ctx):
     # search request (start_inner)
     SI = hirq.Body(f, anchors.one('SearchStream::start_inner', [h for p, h in f.hir.items() if p.startswith('ldap3::search::SearchStream::<') and p.endswith('::start_inner')]))
     ctx.analysed['bodies'].add(SI.path)
-    outs = absx.Interp(f, SI, unroll=1, inline=inline_policy).run(root=async_root(SI))
+    outs = absx.Interp(f, SI, unroll=1, inline=inline_policy, combinators=True, for_once=True).run(root=async_root(SI))
     n = 0
     for o in outs:
         calls = [e for e in o.st.ev if e[0] == 'call' and e[1] == OPC]
@@ -182,7 +182,7 @@ def run(ctx):
     enc = [p for p in f.hir if p.startswith('<ldap3::protocol::LdapCodec as tokio_util::codec::encoder::Encoder<') and p.endswith('>::encode')]
     E = hirq.Body(f, f.body(anchors.one('Encoder::encode', enc)))
     ctx.analysed['bodies'].add(E.path)
-    outs = absx.Interp(f, E, unroll=1, inline=inline_policy).run()
+    outs = absx.Interp(f, E, unroll=1, inline=inline_policy, combinators=True).run()
     msg = ('param', 'msg')
     ctl = SEQ(OCT(field_of(elem(), 'ctype')),
               OPT(lambda pc: next((t for a, t in pc if a[0] == 'field' and a[2] == 'crit'), None), BOOL(lit(True)), 'criticality'),
@@ -210,7 +210,7 @@ def run(ctx):
 
     # ------------------------------------------------------------------ M1/M2 issue point and streaming search
     O = Cn.op_call
-    outs = absx.Interp(f, O, unroll=1, inline=inline_policy).run(root=async_root(O))
+    outs = absx.Interp(f, O, unroll=1, inline=inline_policy, combinators=True).run(root=async_root(O))
     n = 0
     for o in outs:
         sends = [e for e in o.st.ev if e[0] == 'call' and e[1].endswith('UnboundedSender::<T>::send') and e[2][0] == ('field', SELF, 'tx')]
@@ -230,7 +230,7 @@ def run(ctx):
     ctx.floor('M2', 'issued paths of the operation issue point', n, 2)
     SW = hirq.Body(f, f.body(LDAP + 'streaming_search_with'))
     ctx.analysed['bodies'].add(SW.path)
-    outs = absx.Interp(f, SW, unroll=1, inline=inline_policy).run(root=async_root(SW))
+    outs = absx.Interp(f, SW, unroll=1, inline=inline_policy, combinators=True).run(root=async_root(SW))
     n = 0
     for o in outs:
         if o.kind not in ('val', 'ret'):
